@@ -117,6 +117,16 @@ def check_call(fx, rep):
     arms_ok = {}
     wildcard_ok = False
     n_wild = 0
+    # a `match` that is the last statement of its loop body: falling out of an arm *is* going on with the next key
+    tail_matches = set()
+    for lp_ in A.nodes(nkn['body']):
+        if lp_.get('k') in ('while', 'whilelet', 'loop', 'for') and isinstance(lp_.get('body'), list) and lp_['body']:
+            last_ = lp_['body'][-1]
+            while isinstance(last_, dict) and last_.get('k') in ('tail', 'expr', 'semi', 'block') and isinstance(last_.get('expr') or last_.get('body'), (dict, list)):
+                inner_ = last_.get('expr') or last_.get('body')
+                last_ = inner_[-1] if isinstance(inner_, list) and inner_ else inner_
+            if isinstance(last_, dict) and last_.get('k') == 'match':
+                tail_matches.add(id(last_))
     for m in A.nodes(nkn['body']):
         if m.get('k') != 'match':
             continue
@@ -136,7 +146,7 @@ def check_call(fx, rep):
                     if lit in key_to_cellfield and key_to_cellfield[lit] != cfm:
                         cfm = None
                     key_to_cellfield[lit] = cfm
-                    arms_ok[lit] = arms_ok.get(lit, True) and bool(consumes) and bool(cont) and not rets and some_v
+                    arms_ok[lit] = arms_ok.get(lit, True) and bool(consumes) and (bool(cont) or id(m) in tail_matches) and not rets and some_v
             else:
                 des = [n for n in A.nodes(body) if n.get('k') == 'mcall' and n.get('method') == 'deserialize' and A.text(n.get('recv')) == 'seed']
                 this_ok = bool(des) and not [n for n in A.nodes(body) if n.get('k') == 'continue']
